@@ -60,6 +60,28 @@ DESC = {
  'C18-b': ("ideal_non_isothermal_process: the positive-temperature guard is skipped when a temperature programme is given", "a temperature programme that goes non-positive within the run (e.g. coefficients [333.15, -400], dt = 1 h)"),
  'C19-b': ("get_partial_pressures: pure-component shortcut returns Psat*x without the activity model (and without validating the model name)", "composition with p exactly 0 or 1 together with an activity model whose parameters/constants are missing (should be rejected)"),
  'C20-b': ("fit(): private Measurements copy replaced by a shallow copy(data) (shares the measurement list)", "include_zero=True on data reused afterwards"),
+ 'C02-c': ("calculate_partial_fluxes memoises its result in a per-instance dict keyed by feed state, permeate condition, precision and model - but not by the explicitly passed permeances",
+           "a second call on the same Pervaporation object with the same feed state and different explicit permeances (call history)"),
+ 'C03-c': ("non_ideal_non_isothermal_process: feed_temperature[0] = programme(time[0]) when a programme is given (the seeding agents for C01 and C03 both produced this change; kept once)",
+           "the non-ideal non-isothermal model + a temperature programme whose value at t=0 differs from the initial feed temperature"),
+ 'C05-c': ("non_ideal_non_isothermal_process, single curve: the Arrhenius re-scaling of the fits is skipped when the curve temperature equals the initial feed temperature (a restructured variant of C05-a)",
+           "single-curve set + non-isothermal model + initial temperature exactly equal to the curve temperature"),
+ 'C07-c': ("non_ideal_isothermal_process: the discarded `c.to_weight(curve.mixture)` is turned into the in-place `c.p = c.to_weight(...).p` (type stays molar)",
+           "a curve set given in mole fractions; visible inside the call (measurements converted twice) and on every later use of the caller's curve set"),
+ 'C08-c': ("feed-side partial pressures cached per Pervaporation instance under a key that omits calculation_type",
+           "the same object asked for the same feed state first with one activity model, then with the other (call history)"),
+ 'C09-c': ("DiffusionCurve.permeate_composition labels the mass-flux ratio with the basis of the feed compositions instead of `weight`",
+           "a curve built from fluxes with feed compositions in mole fractions and a permeate temperature or pressure"),
+ 'C11-c': ("both non-ideal process models: in-place `c.p = c.to_weight(...).p` on the caller's curve compositions (type stays molar)",
+           "a molar curve set with composition-dependent permeances reused for a second run (e.g. the scaled run)"),
+ 'C12-c': ("Membrane.get_permeance takes the activation energy (and the stated/unstated decision) from the FIRST listed experiment instead of the nearest one",
+           "experiments of one component with different (or partly missing) activation energies, nearest experiment not listed first"),
+ 'C14-c': ("Permeance.convert returns self also when the value is 0 (\"zero is zero in any units\")", "a zero (or clamped negative) permeance converted to other units, without a component or to an unknown unit"),
+ 'C16-c': ("find_best_fit appends the zero points to `data` once before the search and ranks the candidates on the augmented data", "include_zero=True and data for which the zero-point residual changes the ranking"),
+ 'C18-c': ("Composition validator `not 0 <= value <= 1` rewritten as `value < 0 or value > 1` (lets NaN through)", "a NaN fraction produced inside a model: impermeable membrane (0/0) or a self-cooling step landing at a few tens of kelvin, as the last reported state"),
+ 'C19-c': ("get_partial_pressures: pure-component shortcut (Raoult) returns before the activity model and its missing-parameter checks are reached", "composition exactly 0 or 1 together with an incompletely specified activity model"),
+ 'C20-c': ("non-ideal models memoise find_best_fit per Pervaporation instance; the single-curve branches then overwrite b[0] of the cached function in place (shared coefficient lists)",
+           "the same object reused: a single-curve set, an earlier call at another temperature or any non-isothermal call, then another non-ideal call"),
 }
 
 
